@@ -1172,6 +1172,14 @@ caption_command(vbi_decoder *vbi, struct caption *cc,
 			if (!ch->mode)
 				return;
 
+			/* 47 CFR 15.119 (f)(2)(i), (f)(3)(i): No effect
+			   in pop-on and paint-on mode. */
+			if (MODE_POP_ON == ch->mode
+			    || MODE_PAINT_ON == ch->mode) {
+				word_break(cc, ch, 1);
+				return;
+			}
+
 			last_row = ch->row1 + ch->roll - 1;
 
 			if (last_row > ROWS - 1)
